@@ -719,6 +719,7 @@ type world struct {
 	verifiedWith  string          // digest a verification succeeded with
 	skipRead      bool            // an on-demand read ran while the reader was not in verify mode
 	skipCached    map[string]bool // cache keys written by such reads
+	skipContent   map[string]bool // chunk key + hash of the chunk bytes such reads cached (directly or inside a merged entry)
 	hashed        map[string]int  // bytes (as string) -> digest id, for the hash table of the case
 	problems      []problem
 	stats         map[string]int
@@ -868,6 +869,34 @@ func (w *world) cachedKeys() map[string]bool {
 	return m
 }
 
+// noteSkipCached records what an unverified read / passthrough open added to the cache: the keys, and per chunk the
+// content (a later merge in a verified layer copies such chunks into a new whole-file entry: same residue class).
+func (w *world) noteSkipCached(before map[string]bool) {
+	for k := range w.cachedKeys() {
+		if !before[k] {
+			w.skipCached[k] = true
+		}
+	}
+	for f := range w.tabs {
+		for i, ci := range w.tabs[f] {
+			k := w.cacheKey(f, i)
+			if b, ok := w.cachedKey(k); ok && w.skipCached[k] {
+				w.skipContent[k+":"+digest.FromBytes(b).String()] = true
+			}
+			if wk, total := w.wholeKey(f); w.skipCached[wk] {
+				if b, ok := w.cachedKey(wk); ok && int64(len(b)) == total {
+					w.skipContent[k+":"+digest.FromBytes(b[ci.Off:ci.Off+ci.Size]).String()] = true
+				}
+			}
+		}
+	}
+}
+
+// skipResidue: is this chunk content one that an unverified read put into the cache?
+func (w *world) skipResidue(f, i int, piece []byte) bool {
+	return w.skipContent[w.cacheKey(f, i)+":"+digest.FromBytes(piece).String()]
+}
+
 func chunkGood(ci chunkInfo, b []byte) bool {
 	d := digest.FromBytes(b).String()
 	return (ci.Dig != "" && d == ci.Dig) || (ci.PDig != "" && d == ci.PDig)
@@ -900,16 +929,20 @@ func (w *world) scanCache(when string) {
 			continue
 		}
 		good := int64(len(b)) == total
-		for _, ci := range w.tabs[f] {
-			if good && !chunkGood(ci, b[ci.Off:ci.Off+ci.Size]) {
+		residue := good // every chunk of the entry that does not match its digest was cached by an unverified read
+		for i, ci := range w.tabs[f] {
+			if int64(len(b)) == total && !chunkGood(ci, b[ci.Off:ci.Off+ci.Size]) {
 				good = false
+				if !w.skipResidue(f, i, b[ci.Off:ci.Off+ci.Size]) {
+					residue = false
+				}
 			}
 		}
 		if good {
 			continue
 		}
-		if w.skipCached[k] {
-			w.problems = append(w.problems, problem{"C01-skip-read-residue", fmt.Sprintf("%s: merged entry of file %d written by an unverified passthrough open is still cached in a verified layer and contains a chunk that does not match its recorded digest", when, f)})
+		if w.skipCached[k] || residue {
+			w.problems = append(w.problems, problem{"C01-skip-read-residue", fmt.Sprintf("%s: merged entry of file %d made of chunks that unverified reads cached is still cached in a verified layer and contains a chunk that does not match its recorded digest", when, f)})
 		} else {
 			w.problems = append(w.problems, problem{"", fmt.Sprintf("%s: verified layer caches a merged whole-file entry of file %d containing bytes that do not match the recorded chunk digests", when, f)})
 		}
@@ -1039,7 +1072,7 @@ func run(c Case) (res result) {
 		res.stats["build.fail"]++
 		return
 	}
-	w := &world{c: c, digIDs: map[string]int{}, rec: &recorder{}, skipCached: map[string]bool{}, hashed: map[string]int{}, stats: res.stats, dOrig: dOrig}
+	w := &world{c: c, digIDs: map[string]int{}, rec: &recorder{}, skipCached: map[string]bool{}, skipContent: map[string]bool{}, hashed: map[string]int{}, stats: res.stats, dOrig: dOrig}
 	for _, f := range c.Files {
 		w.origTabs = append(w.origTabs, chunkTable(erOrig, f.Name))
 	}
@@ -1449,11 +1482,7 @@ func run(c Case) (res result) {
 			if !verifiedMode {
 				w.skipRead = true
 				w.stats["op.read.unverified"]++
-				for k := range w.cachedKeys() {
-					if !before[k] {
-						w.skipCached[k] = true
-					}
-				}
+				w.noteSkipCached(before)
 			} else {
 				w.stats["op.read.verified"]++
 				w.sawVerifiedRd = true
@@ -1554,11 +1583,7 @@ func run(c Case) (res result) {
 			if !verifiedMode {
 				w.skipRead = true
 				w.stats["op.pass.unverified"]++
-				for k := range w.cachedKeys() {
-					if !before[k] {
-						w.skipCached[k] = true
-					}
-				}
+				w.noteSkipCached(before)
 			} else {
 				w.stats["op.pass.verified"]++
 				w.sawVerifiedRd = true
@@ -1566,10 +1591,10 @@ func run(c Case) (res result) {
 			// clause: what the kernel would read through the descriptor of a layer verified against the trusted digest is the original file
 			if verifiedMode && out.Res == "ok" && w.verifiedWith == w.dOrig.String() && !bytes.Equal(out.Data, c.Files[o.F].Data) {
 				residue := w.skipRead && len(out.Data) == len(c.Files[o.F].Data)
-				if k, _ := w.wholeKey(o.F); !w.skipCached[k] {
+				if k, _ := w.wholeKey(o.F); residue && !w.skipCached[k] {
 					for i, ci := range w.tabs[o.F] {
-						if b, ok := w.cachedBytes(o.F, i); !(ok && !chunkGood(ci, b) && w.skipCached[w.cacheKey(o.F, i)]) &&
-							residue && !bytes.Equal(out.Data[ci.Off:ci.Off+ci.Size], c.Files[o.F].Data[ci.Off:ci.Off+ci.Size]) {
+						piece := out.Data[ci.Off : ci.Off+ci.Size]
+						if !bytes.Equal(piece, c.Files[o.F].Data[ci.Off:ci.Off+ci.Size]) && !w.skipResidue(o.F, i, piece) {
 							residue = false
 						}
 					}
@@ -2100,6 +2125,19 @@ func sourceCorpus() []Case {
 		c.Ops = append(c.Ops, Op{Op: "probe", F: 0, I: 1}, Op{Op: "read", F: 0, Off: 0, Len: 24})
 		out = append(out, c)
 	}
+	// unverified read caches an altered chunk, the layer is verified, the passthrough merge copies the cached chunk into a new
+	// whole-file entry (F9b residue class, found by a thorough run): both merge paths, reader and layer level, zstd too
+	for _, buf := range []int64{24, 15, 16} {
+		for _, lvl := range []string{"skip", "lskip"} {
+			out = append(out, Case{Comp: "gzip", ChunkSize: 8, Direct: true, Files: []FileSpec{{"a", txt}}, Cors: []Cor{{Kind: "replace", F: 0, I: 1, Alt: 1}},
+				Ops: []Op{{Op: lvl}, {Op: "read", F: 0, Off: 0, Len: 16}, {Op: "lverify", D: "orig"}, {Op: "pass", F: 0, Len: buf, I: 2},
+					{Op: "evict", F: 0, I: 1}, whole, {Op: "pass", F: 0, Len: buf, I: 1}}})
+		}
+	}
+	out = append(out, Case{Comp: "zstd", ChunkSize: 8, Direct: true, Files: []FileSpec{{"a", rep}}, Cors: []Cor{{Kind: "flip", F: 0, I: 0, Pos: 54440}},
+		Ops: []Op{{Op: "skip"}, {Op: "read", F: 0, Off: 0, Len: 16}, {Op: "lverify", D: "orig"}, {Op: "pass", F: 0, Len: 24, I: 3}, whole}})
+	out = append(out, Case{Comp: "gzip", ChunkSize: 8, Direct: true, Files: []FileSpec{{"a", txt}}, Cors: []Cor{{Kind: "replace", F: 0, I: 1, Alt: 1}},
+		Ops: []Op{{Op: "lskip"}, {Op: "pass", F: 0, Len: 16, I: 2}, {Op: "lverify", D: "orig"}, {Op: "pass", F: 0, Len: 16, I: 2}, whole}})
 	// a failed verification retried on the same reader / layer object, with re-reads in between
 	out = append(out, Case{Comp: "gzip", ChunkSize: 8, Files: []FileSpec{{"a", txt}}, Cors: []Cor{{Kind: "replace", F: 0, I: 1, Alt: 1}},
 		Ops: []Op{{Op: "pf", F: 0, I: 1}, {Op: "lverify", D: "orig"}, {Op: "lverify", D: "orig"}, {Op: "vtoc", D: "orig"}, {Op: "cache"}, {Op: "vtoc", D: "orig"}, {Op: "lskip"}, {Op: "lverify", D: "orig"}, whole}})
